@@ -601,6 +601,9 @@ impl Check for C10 {
             }
             _ => g.urange(0, 8),
         };
+        // every fourth single-call scenario sweeps the lengths 0..=640 densely (by run index), so that a condition
+        // on the length that is neither small nor a round number (len % 7 == 3, 41 <= len <= 47, ...) is met
+        let la = if run % 4 == 1 { ((run / 4) % 641) as usize } else { la };
         let lb = if g.chance(1, 6) {
             if la > 8 && g.coin() { la + 1 - 2 * g.urange(0, 1) } else { g.urange(0, 8) }
         } else {
